@@ -44,6 +44,15 @@ pub fn install_quiet_panic_hook() {
         if breadcrumb_file().is_some() {
             eprintln!("panic: {}", info);
         }
+        // a panic raised by the code under test while the harness was NOT inside a guarded call (a helper
+        // that prepares an input through the crate's own API): still data, not a harness failure.  The
+        // harness's own files are compiled with relative paths ("src/..."); the crate under test and std
+        // are not.
+        let own = info.location().map(|l| l.file().starts_with("src/")).unwrap_or(true);
+        if !own && !IN_GUARDED.load(std::sync::atomic::Ordering::Relaxed) {
+            eprintln!("UNGUARDED PANIC in the code under test: {}", info);
+            std::process::exit(4);
+        }
     }));
 }
 
